@@ -231,7 +231,7 @@ Fixpoint newly_finalized (a b : list (option pobs)) : Z :=
    4 = C14.pass_percentage_drift: code 2 / 12 on a proposal that received a vote tallied with an option percentage
        different from its own *)
 (* class of a violation: all former classes (1 public_expire_votes, 2 stale_fund_records, 3 negative_fund_amount,
-   4 pass_percentage_drift) belonged to findings repaired in /repo (0988205, d859128, 65cdcf3 / 7960770, c39c303):
+   4 pass_percentage_drift) belonged to findings repaired in /repo (0988205, 9dda72d, 782c385 / 19a3caa, 23f7d29):
    every monitor hit is now unexplained (class 0) *)
 Definition classify (code : Z) (i : Z) (bi : binfo) (neg drift : list N) (nfin : Z) (pa pb : option pobs) : Z := 0.
 
